@@ -209,3 +209,289 @@ Example builtin_example :
   = (of_ascii "a"%string ++ [10] ++ chomp sep0_line ++ [10] ++ of_ascii "x"%string ++ [10] ++ chomp sep2_line ++ [10]
        ++ of_ascii "y"%string ++ [10] ++ chomp sep3_line, 1%Z).
 Proof. vm_compute. reflexivity. Qed.
+
+(* ------------------------------------------------------------------ resolve_strategy_inline_source *)
+Definition plain_char (c : N) : bool := negb (is_sep c) && negb (c =? 13).
+
+Lemma splitlines_line_app p r :
+  forallb plain_char p = true -> splitlines (p ++ 10 :: r) = (p ++ [10]) :: splitlines r.
+Proof.
+  induction p as [|c p IH]; intros H.
+  - reflexivity.
+  - simpl in H. apply andb_true_iff in H. destruct H as [Hc Hp]. unfold plain_char in Hc.
+    apply andb_true_iff in Hc. destruct Hc as [H1 H2].
+    apply negb_true_iff in H1. apply negb_true_iff in H2.
+    change ((c :: p) ++ 10 :: r) with (c :: (p ++ 10 :: r)).
+    rewrite splitlines_cons. unfold splitlines_step. rewrite H2, H1, (IH Hp). reflexivity.
+Qed.
+
+Lemma tlines_marker_app p r :
+  forallb plain_char p = true -> tlines ((p ++ [10]) ++ r) = chomp (p ++ [10]) :: tlines r.
+Proof.
+  intros H. unfold tlines. rewrite <- app_assoc. change ([10] ++ r) with (10 :: r).
+  rewrite (splitlines_line_app p r H). reflexivity.
+Qed.
+
+Definition ld_body := of_ascii "<<<<<<< LOCAL CELL DELETED >>>>>>>"%string.
+Definition rd_body := of_ascii "<<<<<<< REMOTE CELL DELETED >>>>>>>"%string.
+Lemma ld_plain : forallb plain_char ld_body = true. Proof. vm_compute. reflexivity. Qed.
+Lemma rd_plain : forallb plain_char rd_body = true. Proof. vm_compute. reflexivity. Qed.
+Lemma ld_marker : is_marker (chomp (ld_body ++ [10])) = true. Proof. vm_compute. reflexivity. Qed.
+Lemma rd_marker : is_marker (chomp (rd_body ++ [10])) = true. Proof. vm_compute. reflexivity. Qed.
+
+Lemma tlines_local_deleted r : tlines (local_deleted_marker ++ r) = chomp (ld_body ++ [10]) :: tlines r.
+Proof. apply (tlines_marker_app ld_body r ld_plain). Qed.
+Lemma tlines_remote_deleted r : tlines (remote_deleted_marker ++ r) = chomp (rd_body ++ [10]) :: tlines r.
+Proof. apply (tlines_marker_app rd_body r rd_plain). Qed.
+
+Definition side_lines (s : option pystr) : list pystr := match s with Some t => tlines t | None => [] end.
+
+Section InlineSourceThms.
+  Variable tool : pystr -> pystr -> pystr -> pystr * Z.
+
+  (* the contract of the text-merge tool, asked only of the call that is actually made *)
+  Definition tool_contract (base : pystr) (local remote : option pystr) : Prop :=
+    forall l r, local = Some l -> remote = Some r ->
+                contract_ok base l r (fst (tool base l r)) (snd (tool base l r)) = true.
+
+  Lemma contract_parts b l r :
+    contract_ok b l r (fst (tool b l r)) (snd (tool b l r)) = true ->
+    contract_provenance b l r (fst (tool b l r)) = true /\
+    contract_survival b l r (fst (tool b l r)) = true /\
+    contract_flags b l r (fst (tool b l r)) (snd (tool b l r)) = true.
+  Proof.
+    unfold contract_ok. intros H. apply andb_true_iff in H. destruct H as [H H3].
+    apply andb_true_iff in H. destruct H as [H1 H2]. auto.
+  Qed.
+
+  Lemma risrc_both base l r d :
+    resolve_strategy_inline_source tool base (Some l) (Some r) = Some d ->
+    d_source d = fst (tool base l r) /\ d_conflict d = negb (snd (tool base l r) =? 0)%Z.
+  Proof.
+    unfold resolve_strategy_inline_source. destruct (tool base l r) as [m st]. intros H.
+    injection H as <-. split; reflexivity.
+  Qed.
+  Lemma risrc_rd base l d :
+    resolve_strategy_inline_source tool base (Some l) None = Some d ->
+    d_source d = remote_deleted_marker ++ l /\ d_conflict d = true.
+  Proof. intros H. injection H as <-. split; reflexivity. Qed.
+  Lemma risrc_ld base r d :
+    resolve_strategy_inline_source tool base None (Some r) = Some d ->
+    d_source d = local_deleted_marker ++ r /\ d_conflict d = true.
+  Proof. intros H. injection H as <-. split; reflexivity. Qed.
+
+  Theorem inline_source_survival base local remote d x :
+    resolve_strategy_inline_source tool base local remote = Some d ->
+    tool_contract base local remote ->
+    In x (side_lines local ++ side_lines remote) -> nonblank x = true ->
+    In x (tlines base) \/ In x (tlines (d_source d)).
+  Proof.
+    intros H Hc Hx Hn. destruct local as [l|], remote as [r|].
+    - specialize (Hc l r eq_refl eq_refl). apply contract_parts in Hc. destruct Hc as (_ & Hs & _).
+      destruct (risrc_both _ _ _ _ H) as [Es _]. rewrite Es. unfold side_lines in Hx.
+      unfold contract_survival in Hs. rewrite forallb_forall in Hs. specialize (Hs x Hx).
+      rewrite Hn in Hs. cbn [negb orb] in Hs. apply orb_true_iff in Hs. destruct Hs as [Hs|Hs]; apply mem_In in Hs; auto.
+    - destruct (risrc_rd _ _ _ H) as [Es _]. rewrite Es. unfold side_lines in Hx. rewrite app_nil_r in Hx. right.
+      rewrite tlines_remote_deleted. right. assumption.
+    - destruct (risrc_ld _ _ _ H) as [Es _]. rewrite Es. unfold side_lines in Hx. cbn [app] in Hx. right.
+      rewrite tlines_local_deleted. right. assumption.
+    - discriminate.
+  Qed.
+
+  Theorem inline_source_provenance base local remote d y :
+    resolve_strategy_inline_source tool base local remote = Some d ->
+    tool_contract base local remote ->
+    In y (tlines (d_source d)) -> nonblank y = true ->
+    In y (tlines base) \/ In y (side_lines local) \/ In y (side_lines remote) \/ is_marker y = true.
+  Proof.
+    intros H Hc Hy Hn. destruct local as [l|], remote as [r|].
+    - specialize (Hc l r eq_refl eq_refl). apply contract_parts in Hc. destruct Hc as (Hp & _ & _).
+      destruct (risrc_both _ _ _ _ H) as [Es _]. rewrite Es in Hy. unfold side_lines.
+      unfold contract_provenance in Hp. rewrite forallb_forall in Hp. specialize (Hp y Hy).
+      rewrite Hn in Hp. rewrite !orb_true_iff in Hp.
+      destruct Hp as [[[[Hp|Hp]|Hp]|Hp]|Hp]; [discriminate Hp | apply mem_In in Hp; auto | apply mem_In in Hp; auto | apply mem_In in Hp; auto | auto].
+    - destruct (risrc_rd _ _ _ H) as [Es _]. rewrite Es in Hy. unfold side_lines.
+      rewrite tlines_remote_deleted in Hy. destruct Hy as [Hy|Hy].
+      + right. right. right. rewrite <- Hy. apply rd_marker.
+      + auto.
+    - destruct (risrc_ld _ _ _ H) as [Es _]. rewrite Es in Hy. unfold side_lines.
+      rewrite tlines_local_deleted in Hy. destruct Hy as [Hy|Hy].
+      + right. right. right. rewrite <- Hy. apply ld_marker.
+      + auto.
+    - discriminate.
+  Qed.
+
+  (* a deleted side always yields a conflict; a rewrite of the same position by both sides to different fresh lines
+     yields a conflict with the local variant in a local branch and the remote variant in a remote branch *)
+  Theorem inline_source_flags base local remote d :
+    resolve_strategy_inline_source tool base local remote = Some d ->
+    tool_contract base local remote ->
+    (local = None \/ remote = None -> d_conflict d = true) /\
+    (forall l r x y, local = Some l -> remote = Some r -> In (x, y) (clashes base l r) ->
+       d_conflict d = true /\
+       In x (fst (branches Outside (tlines (d_source d)))) /\
+       In y (snd (branches Outside (tlines (d_source d))))).
+  Proof.
+    intros H Hc. split.
+    - intros K. destruct local as [l|], remote as [r|].
+      + destruct K; discriminate.
+      + apply (risrc_rd _ _ _ H).
+      + apply (risrc_ld _ _ _ H).
+      + discriminate.
+    - intros l r x y -> -> Hin. specialize (Hc l r eq_refl eq_refl). apply contract_parts in Hc.
+      destruct Hc as (_ & _ & Hf). destruct (risrc_both _ _ _ _ H) as [Es Ec]. rewrite Es, Ec.
+      unfold contract_flags in Hf. destruct (branches Outside (tlines (fst (tool base l r)))) as [lo re].
+      rewrite forallb_forall in Hf. specialize (Hf (x, y) Hin). cbn [fst snd] in Hf.
+      apply andb_true_iff in Hf. destruct Hf as [Hf H3]. apply andb_true_iff in Hf. destruct Hf as [H1 H2].
+      apply mem_In in H2. apply mem_In in H3. cbn [fst snd]. auto.
+  Qed.
+End InlineSourceThms.
+
+(* non-vacuity: the contract (with a non-empty clash set) is met by the built-in renderer on a concrete call *)
+Example tool_contract_example :
+  let b := [117; 10; 118; 10] in let l := [120; 10; 118; 10] in let r := [121; 10; 118; 10] in
+  clashes b l r = [([120], [121])] /\
+  contract_ok b l r (fst (builtin_merge_render b l r)) (snd (builtin_merge_render b l r)) = true.
+Proof. vm_compute. split; reflexivity. Qed.
+
+(* ------------------------------------------------------------------ make_inline_cell_conflict *)
+Lemma In_firstn {A} n (l : list A) x : In x (firstn n l) -> In x l.
+Proof. revert l; induction n; intros [|a l] H; simpl in *; try contradiction. destruct H; auto. Qed.
+Lemma In_skipn {A} n (l : list A) x : In x (skipn n l) -> In x l.
+Proof. revert l; induction n; intros [|a l] H; simpl in *; try contradiction; auto. Qed.
+
+Theorem inline_cells_keep_both (cell : Type) (mk : pystr -> cell) base_cells start lvals lremove rvals rremove c :
+  In c lvals \/ In c rvals ->
+  In c (make_inline_cell_conflict cell mk base_cells start lvals lremove rvals rremove).
+Proof.
+  unfold make_inline_cell_conflict. intros H. rewrite !in_app_iff. simpl. tauto.
+Qed.
+
+Theorem inline_cells_provenance (cell : Type) (mk : pystr -> cell) base_cells start lvals lremove rvals rremove c :
+  In c (make_inline_cell_conflict cell mk base_cells start lvals lremove rvals rremove) ->
+  In c lvals \/ In c rvals \/ In c base_cells \/ c = mk m0_text \/ c = mk m1_text \/ c = mk m2_text.
+Proof.
+  unfold make_inline_cell_conflict. rewrite !in_app_iff. simpl.
+  intros H.
+  assert (F : forall k, In c (firstn k (skipn start base_cells)) -> In c base_cells)
+    by (intros k K; apply In_firstn in K; apply In_skipn in K; exact K).
+  destruct H as [[H|[]]|[[H|H]|[[H|[]]|[[H|H]|[H|[]]]]]]; auto 10.
+  - apply F in H. auto.
+  - apply F in H. auto.
+Qed.
+
+(* ------------------------------------------------------------------ delete-vs-edit countering *)
+Definition is_patch (e : dentry) : bool := match e with DPatch _ _ => true | _ => false end.
+
+Lemma idat_cons f e rest p tr :
+  is_diff_all_transients (S f) (e :: rest) p tr =
+  match e with
+  | DPatch _ dd =>
+      if path_in (p ++ [seg (dkey e)]) tr then is_diff_all_transients (S f) rest p tr
+      else if negb (is_diff_all_transients f dd (p ++ [seg (dkey e)]) tr) then false
+           else is_diff_all_transients (S f) rest p tr
+  | _ => if negb (path_in (p ++ [seg (dkey e)]) tr) then false else is_diff_all_transients (S f) rest p tr
+  end.
+Proof. destruct e; reflexivity. Qed.
+
+Definition nontransient (f : nat) (e : dentry) (p : path) (tr : list path) : bool :=
+  match e with
+  | DPatch _ dd => negb (path_in (p ++ [seg (dkey e)]) tr) && negb (is_diff_all_transients f dd (p ++ [seg (dkey e)]) tr)
+  | _ => negb (path_in (p ++ [seg (dkey e)]) tr)
+  end.
+
+(* one non-transient entry anywhere in the diff makes the diff non-transient *)
+Lemma idat_false f d p tr e :
+  In e d -> nontransient f e p tr = true -> is_diff_all_transients (S f) d p tr = false.
+Proof.
+  induction d as [|h rest IH]; intros Hin Hn; [destruct Hin|].
+  rewrite idat_cons. destruct Hin as [->|Hin].
+  - destruct e; cbn [dkey nontransient] in Hn |- *; try (rewrite Hn; reflexivity).
+    apply andb_true_iff in Hn. destruct Hn as [H1 H2]. apply negb_true_iff in H1. rewrite H1, H2. reflexivity.
+  - specialize (IH Hin Hn). rewrite IH.
+    destruct h; try (destruct (negb _); reflexivity).
+    destruct (path_in _ _); [reflexivity|]. destruct (negb _); reflexivity.
+Qed.
+
+Lemma wdc_cons counters f e rest p :
+  will_diff_counter_parent_deletion counters (S f) (e :: rest) p =
+  if counters (p ++ [seg (dkey e)]) then true
+  else match e with
+       | DPatch _ dd => if will_diff_counter_parent_deletion counters f dd (p ++ [seg (dkey e)]) then true
+                        else will_diff_counter_parent_deletion counters (S f) rest p
+       | _ => will_diff_counter_parent_deletion counters (S f) rest p
+       end.
+Proof. destruct e; reflexivity. Qed.
+
+Lemma wdc_true counters f d p e :
+  In e d -> counters (p ++ [seg (dkey e)]) = true -> will_diff_counter_parent_deletion counters (S f) d p = true.
+Proof.
+  induction d as [|h rest IH]; intros Hin Hc; [destruct Hin|].
+  rewrite wdc_cons. destruct Hin as [->|Hin].
+  - rewrite Hc. reflexivity.
+  - rewrite (IH Hin Hc). destruct (counters (p ++ [seg (dkey h)])); [reflexivity|].
+    destruct h; try reflexivity.
+    match goal with |- (if ?c then true else true) = true => destruct c; reflexivity end.
+Qed.
+
+Lemma cpd_cons counters f e rest p :
+  create_parent_deletion_counter_diff counters (S f) (e :: rest) p =
+  if counters (p ++ [seg (dkey e)]) then CParentDeleted (dkey e) :: create_parent_deletion_counter_diff counters (S f) rest p
+  else match e with
+       | DPatch k dd => CPatch k (create_parent_deletion_counter_diff counters f dd (p ++ [seg (dkey e)]))
+                        :: create_parent_deletion_counter_diff counters (S f) rest p
+       | _ => create_parent_deletion_counter_diff counters (S f) rest p
+       end.
+Proof. destruct e; reflexivity. Qed.
+
+Lemma cpd_in counters f d p e :
+  In e d -> counters (p ++ [seg (dkey e)]) = true ->
+  In (CParentDeleted (dkey e)) (create_parent_deletion_counter_diff counters (S f) d p).
+Proof.
+  induction d as [|h rest IH]; intros Hin Hc; [destruct Hin|].
+  rewrite cpd_cons. destruct Hin as [->|Hin].
+  - rewrite Hc. left. reflexivity.
+  - specialize (IH Hin Hc). destruct (counters (p ++ [seg (dkey h)])); [right; exact IH|].
+    destruct h; try exact IH. right. exact IH.
+Qed.
+
+Lemma not_transient_under_source s :
+  path_in ([p_cells; star; p_source] ++ [s]) default_transients = false.
+Proof. vm_compute. reflexivity. Qed.
+
+Lemma source_diff_not_transient f sd :
+  (exists e rest, sd = e :: rest /\ is_patch e = false) ->
+  is_diff_all_transients (S f) sd [p_cells; star; p_source] default_transients = false.
+Proof.
+  intros (e & rest & -> & Hp). rewrite idat_cons, not_transient_under_source.
+  destruct e; simpl in Hp; try discriminate; reflexivity.
+Qed.
+
+(* One side deleted the cell, the other side's diff of the cell patches /source with a line diff (whatever else it
+   changes, transient or not, before or after): the deletion is NOT taken; the cell is recursed into with the internal
+   op "parent_deleted" at source, which resolve_strategy_inline_source turns into marker + edited source (conflict). *)
+Theorem countered_deletion_keeps_cell f d sd :
+  In (DPatch (KS p_source) sd) d ->
+  (exists e rest, sd = e :: rest /\ is_patch e = false) ->
+  exists cd,
+    delete_vs_patch default_counters (S (S f)) d cell_path default_transients = CounterDeletion cd /\
+    In (CParentDeleted (KS p_source)) cd.
+Proof.
+  intros Hin Hsd. unfold delete_vs_patch.
+  rewrite (idat_false (S f) d cell_path default_transients _ Hin).
+  - rewrite (wdc_true default_counters (S f) d cell_path _ Hin); [|reflexivity].
+    eexists. split; [reflexivity|].
+    apply (cpd_in default_counters (S f) d cell_path _ Hin). reflexivity.
+  - unfold nontransient. change (cell_path ++ [seg (dkey (DPatch (KS p_source) sd))]) with [p_cells; star; p_source].
+    rewrite (source_diff_not_transient f sd Hsd). vm_compute. reflexivity.
+Qed.
+
+(* non-vacuity, and the situation of the seeded defect: a transient metadata patch BEFORE the source patch *)
+Example countered_example :
+  let d := [DPatch (KS (of_ascii "metadata"%string)) [DReplace (KS (of_ascii "collapsed"%string)) (JBool true)];
+            DPatch (KS p_source) [DAddRange (KI 0) (VList [JStr [120; 10]])]] in
+  delete_vs_patch default_counters 3 d cell_path default_transients
+  = CounterDeletion [CPatch (KS (of_ascii "metadata"%string)) []; CParentDeleted (KS p_source)]
+  /\ delete_vs_patch default_counters 3 [DPatch (KS (of_ascii "metadata"%string)) [DReplace (KS (of_ascii "collapsed"%string)) (JBool true)]]
+       cell_path default_transients = TakeDeletion.
+Proof. vm_compute. split; reflexivity. Qed.
